@@ -29,7 +29,8 @@ type Prog struct {
 	mods   *modInfo
 	impls  map[string][]*ssa.Function
 	srcFns []*ssa.Function
-	serve  *serveResult
+	serve  map[string]*serveResult
+	nonNil map[*ssa.Function]int8
 
 	NFuncs int
 }
